@@ -995,3 +995,191 @@ example : Spec 6 [[3, 4, 5], [0, 1, 2]] [[3, 4, 5], [0, 1, 2]] [3, 3] 6
     (by decide) (by decide)
 
 end UxVerif.C03
+
+namespace UxVerif.C03
+open UxVerif UxVerif.Incidence UxVerif.Incidence.Transport
+
+/-! ### the tables are rectangular: `np.pad` is never asked for a negative width -/
+
+theorem le_maxLen_aux (L : List (List Int)) (m : Nat) :
+    m ≤ L.foldl (fun m l => max m l.length) m ∧
+    ∀ l ∈ L, l.length ≤ L.foldl (fun m l => max m l.length) m := by
+  induction L generalizing m with
+  | nil => simp
+  | cons a L ih =>
+    simp only [List.foldl_cons, List.mem_cons, forall_eq_or_imp]
+    have h1 := (ih (max m a.length)).1
+    refine ⟨by omega, by omega, (ih _).2⟩
+
+theorem le_maxLen {L : List (List Int)} {l : List Int} (h : l ∈ L) : l.length ≤ maxLen L :=
+  (le_maxLen_aux L 0).2 l h
+
+theorem maxLen_attained_aux (L : List (List Int)) (m : Nat) :
+    L.foldl (fun m l => max m l.length) m = m ∨
+    ∃ l ∈ L, l.length = L.foldl (fun m l => max m l.length) m := by
+  induction L generalizing m with
+  | nil => simp
+  | cons a L ih =>
+    simp only [List.foldl_cons, List.mem_cons, exists_eq_or_imp]
+    rcases ih (max m a.length) with h | ⟨l, hl, h⟩
+    · rw [h]
+      by_cases hc : a.length ≤ m
+      · left; omega
+      · right; left; omega
+    · right; right; exact ⟨l, hl, h⟩
+
+theorem length_padTo {w : Nat} {l : List Int} (h : l.length ≤ w) : (padTo w l).length = w := by
+  unfold padTo; simp; omega
+
+/-- **`node_face_connectivity` is rectangular**: every row has length `maxLen` (= `n_max_node_faces`) -/
+theorem nodeFace_rectangular (n : Nat) (t : Table) :
+    ∀ r ∈ nodeFace n t, r.length = maxLen (nodeFaceLists n t) := by
+  intro r hr
+  unfold nodeFace at hr
+  simp only [List.mem_map] at hr
+  obtain ⟨l, hl, rfl⟩ := hr
+  exact length_padTo (le_maxLen hl)
+
+/-- … and that width is the largest number of faces any node lies in: some row has no padding -/
+theorem nodeFace_width_is_max_valence (n : Nat) (t : Table) (h : 0 < maxLen (nodeFaceLists n t)) :
+    ∃ v, v < n ∧ (feed (nfEvents t) v).length = maxLen (nodeFaceLists n t) := by
+  rcases maxLen_attained_aux (nodeFaceLists n t) 0 with h0 | ⟨l, hl, hlen⟩
+  · unfold maxLen at h; omega
+  · obtain ⟨v, hv, hget⟩ := List.getElem_of_mem hl
+    have hn : (nodeFaceLists n t).length = n := by
+      unfold nodeFaceLists; rw [keyedFold_length]; simp
+    have hv' : v < n := by omega
+    have := nodeFaceLists_get n t v hv'
+    rw [List.getElem?_eq_getElem hv, hget] at this
+    injection this with this
+    exact ⟨v, hv', by rw [← this]; exact hlen⟩
+
+/-! `face_face_connectivity`: a face has at most as many neighbour entries as real edge slots -/
+
+theorem sum_map_add (l : List Nat) (a b : Nat → Nat) :
+    (l.map (fun e => a e + b e)).sum = (l.map a).sum + (l.map b).sum := by
+  induction l with
+  | nil => simp
+  | cons x l ih => simp only [List.map_cons, List.sum_cons, ih]; omega
+
+theorem sum_indicator_le_one (k c : Nat) :
+    ((List.range k).map (fun e => if c = e then 1 else 0)).sum ≤ 1 := by
+  induction k with
+  | zero => simp
+  | succ k ih =>
+    rw [List.range_succ, List.map_append, List.sum_append]
+    simp only [List.map_cons, List.map_nil, List.sum_cons, List.sum_nil]
+    by_cases h : c = k
+    · subst h
+      have : ((List.range c).map (fun e => if c = e then 1 else 0)).sum = 0 := by
+        apply List.sum_eq_zero
+        intro x hx
+        simp only [List.mem_map, List.mem_range] at hx
+        obtain ⟨e, he, rfl⟩ := hx
+        have : ¬ c = e := by omega
+        simp [this]
+      simp [this]
+    · simp [h]; exact ih
+
+/-- slots holding an edge number `< k`, summed over the edge numbers, are at most all slots -/
+theorem sum_countP_le_length (r : List Int) (k : Nat) :
+    ((List.range k).map (fun e => r.countP (fun y => y.toNat == e))).sum ≤ r.length := by
+  induction r with
+  | nil => simp
+  | cons y r ih =>
+    have : (fun e => (y :: r).countP (fun y => y.toNat == e))
+        = (fun e => r.countP (fun y => y.toNat == e) + (if y.toNat = e then 1 else 0)) := by
+      funext e
+      rw [List.countP_cons]
+      simp
+    rw [this, sum_map_add]
+    have := sum_indicator_le_one k y.toNat
+    simp only [List.length_cons]
+    omega
+
+theorem feed_flatMap_length {α : Type} (L : List α) (g : α → List (Nat × Int)) (k : Nat) :
+    (feed (L.flatMap g) k).length = (L.map (fun a => (feed (g a) k).length)).sum := by
+  induction L with
+  | nil => simp [feed]
+  | cons a L ih => rw [List.flatMap_cons, feed_append, List.length_append, ih]; simp
+
+/-- one edge contributes to `face_face[f]` at most as often as `f` holds that edge -/
+theorem ffEventsOf_feed_le {n : Nat} {t FE : Table} {N : List Nat} {nEdge : Nat}
+    (h : Pre n t FE N nEdge) (e : Nat) (he : e < nEdge) (f : Nat) :
+    (feed (ffEventsOf ((edgeFace FE N nEdge).getD e (FILL, FILL))) f).length
+      ≤ (feed (efEvents FE N) e).count (Int.ofNat f) := by
+  rw [edgeFace_get FE N nEdge e he]
+  have hinc := h.2.2.1 e he
+  have hfeed := mem_feed_ef h e
+  unfold incidence at hinc
+  generalize feed (efEvents FE N) e = l at hinc hfeed
+  match l, hinc with
+  | [a], _ =>
+    rw [slot_one]
+    simp [ffEventsOf, feed]
+  | [a, b], _ =>
+    obtain ⟨fa, _, rfl, _⟩ := (hfeed a).mp (by simp)
+    obtain ⟨fb, _, rfl, _⟩ := (hfeed b).mp (by simp)
+    rw [slot_two _ _ (ofNat_ne_fill fa)]
+    have h1 : (Int.ofNat fa != FILL && Int.ofNat fb != FILL) = true := by
+      rw [Bool.and_eq_true, bne_iff_ne, bne_iff_ne]
+      exact ⟨ofNat_ne_fill fa, ofNat_ne_fill fb⟩
+    unfold ffEventsOf
+    simp only [h1, if_true]
+    rw [feed_cons, feed_cons]
+    simp only [Int.toNat_natCast, Int.ofNat_eq_natCast, List.count_cons, List.count_nil]
+    by_cases c1 : fa = f <;> by_cases c2 : fb = f <;> simp [c1, c2, feed]
+  | [], h0 => simp at h0
+  | _ :: _ :: _ :: _, h3 => simp at h3
+
+/-- **a face has at most as many neighbour entries as it has real edge slots** -/
+theorem faceFace_row_le {n : Nat} {t FE : Table} {N : List Nat} {nEdge : Nat}
+    (h : Pre n t FE N nEdge) (f : Nat) (hf : f < FE.length) :
+    (feed (ffEvents (edgeFace FE N nEdge)) f).length ≤ (faceEdgesOf FE N f).length := by
+  unfold ffEvents
+  conv => lhs; rw [eq_map_getD_range (edgeFace FE N nEdge) (FILL, FILL)]
+  rw [List.flatMap_map, feed_flatMap_length, edgeFace_length]
+  refine Nat.le_trans (sum_map_le_sum_map _
+      (fun e => (faceEdgesOf FE N f).countP (fun y => y.toNat == e)) ?_)
+    (sum_countP_le_length _ nEdge)
+  intro e he
+  have := ffEventsOf_feed_le h e (List.mem_range.mp he) f
+  rwa [count_feed_face, if_pos hf] at this
+
+/-- **`face_face_connectivity` is rectangular of width `w = n_max_face_edges`** whenever no face has more
+    than `w` real edges (it has `N[f] ≤ w` slots by construction of `face_edge_connectivity`): the width handed
+    to `np.pad` is never negative, the builder's error branch is unreachable on the property's domain -/
+theorem faceFace_rectangular {n w : Nat} {t FE : Table} {N : List Nat} {nEdge : Nat}
+    (h : Pre n t FE N nEdge) (hw : ∀ f, f < FE.length → N.getD f 0 ≤ w) :
+    ∀ r ∈ faceFace FE.length w (edgeFace FE N nEdge), r.length = w := by
+  intro r hr
+  unfold faceFace at hr
+  simp only [List.mem_map] at hr
+  obtain ⟨l, hl, rfl⟩ := hr
+  apply length_padTo
+  obtain ⟨f, hf, hget⟩ := List.getElem_of_mem hl
+  have hL : (faceFaceLists FE.length (edgeFace FE N nEdge)).length = FE.length := by
+    unfold faceFaceLists; rw [keyedFold_length]; simp
+  have hf' : f < FE.length := by omega
+  have := faceFaceLists_get FE.length (edgeFace FE N nEdge) f hf'
+  rw [List.getElem?_eq_getElem hf, hget] at this
+  injection this with this
+  rw [this]
+  have h1 := faceFace_row_le h f hf'
+  have h2 : (faceEdgesOf FE N f).length ≤ N.getD f 0 := by
+    unfold faceEdgesOf; rw [List.length_take]; omega
+  have := hw f hf'
+  omega
+
+/-- non-vacuity, and the bound is attained: the middle quad of a strip has two neighbours and four slots;
+    a triangle glued to three others has three neighbours in three slots (no padding) -/
+example : ∀ r ∈ faceFace 3 3 (edgeFace [[0, 1, 2], [1, 3, 4], [5, 6, 7]] [3, 3, 3] 8), r.length = 3 :=
+  faceFace_rectangular (n := 7) (w := 3) (t := [[0, 1, 2], [2, 1, 3], [4, 5, 6]])
+    (FE := [[0, 1, 2], [1, 3, 4], [5, 6, 7]]) (N := [3, 3, 3]) (nEdge := 8) (by decide) (by decide)
+example : faceFace 4 3 (edgeFace [[0, 1, 2], [0, 3, 4], [1, 5, 6], [2, 7, 8]] [3, 3, 3, 3] 9)
+    = [[1, 2, 3], [0, FILL, FILL], [0, FILL, FILL], [0, FILL, FILL]] := by decide
+/-- outside the hypothesis the model's row is longer than `w` (where NumPy raises): width 2 for triangles -/
+example : (faceFace 4 2 (edgeFace [[0, 1, 2], [0, 3, 4], [1, 5, 6], [2, 7, 8]] [3, 3, 3, 3] 9)).map List.length
+    = [3, 2, 2, 2] := by decide
+
+end UxVerif.C03
